@@ -1,5 +1,6 @@
 """C08 — WeightedAliasIndex encodes and samples exactly the given weights."""
 import itertools, struct
+from fractions import Fraction
 from common import *
 import treelib as T
 
@@ -133,6 +134,16 @@ def float_lines(ctx):
                 ws = [fhex(ty, (rng.below(1 << 53) + 1) / float(1 << 53) * (0 if rng.chance(1, 6) else 1)) for _ in range(n)]
             else:             # decimal-looking weights (0.1 .. 9.9)
                 ws = [fhex(ty, (1 + rng.below(99)) / 10.0) for _ in range(n)]
+            if k % 10 == 9:
+                # weights exactly at the per-length maximum MAX/n (accepted: w <= MAX/n), where the scaling w*n rounds to or beyond MAX
+                n = rng.choice([2, 3, 5, 6, 7, 9, 25, 31, 49])
+                fmx = 3.4028234663852886e38 if ty == "f32" else 1.7976931348623157e308
+                m = fmx / n if ty == "f64" else struct.unpack("<f", struct.pack("<f", fmx / n))[0]
+                if ty == "f32" and m > fmx / n:          # round MAX/n down to the f32 quotient the crate computes
+                    m = struct.unpack("<f", struct.pack("<I", struct.unpack("<I", struct.pack("<f", m))[0] - 1))[0]
+                k_at = 1 + rng.below(min(n, 4))
+                ws = [fhex(ty, m) for _ in range(k_at)] + \
+                     [fhex(ty, rng.choice([0.0, 1.0, m / 3, m * (1 - 2.0 ** -20), (1 + rng.below(99)) / 10.0])) for _ in range(n - k_at)]
             # every column with the largest threshold draw, plus random draws
             cols = " ".join("S:%x,ffffffffffffffff" % ((-((-c << 32) // n)) << 32) for c in range(n))
             lines.append("alias %s 0 %s %s S:%x,%x" % (ty, ",".join(ws), cols, rng.u64(), rng.u64()))
@@ -241,51 +252,85 @@ def correspond(ctx):
     for i in failing:
         mismatches.append({"type": vecs[i][0], "harness_line": lines[i], "rust": outs[i][:2000]})
     # floats: direct oracle
-    fsent = 0
+    fsent = 0; fover = 0; fmass = 0
     for line, (ty, hx), o in zip(flines, fmeta, fouts):
         vals = [fval(ty, h) for h in hx]
         n = len(vals)
         fmax = 3.4028234663852886e38 if ty == "f32" else 1.7976931348623157e308
         bad = any((v != v) or v < 0 or v > fmax / n for v in vals)
-        fail = None
-        cls = "float-alias"
+        fails = []          # (class, what): every distinct failure of this vector is reported on its own
         if o == "panic":
-            fail = "new() panicked on float weights %s" % vals
+            fails.append(("float-alias", "new() panicked on float weights %s" % vals))
         elif o.startswith("E:"):
             exp = "E:InvalidWeight" if bad else ("E:InsufficientNonZero" if sum(vals) == 0 else None)
             if exp is None and not (sum(vals) == float("inf")):
-                fail = "new(%s) returned %s but the weights are valid and not all zero" % (vals, o)
+                fails.append(("float-alias", "new(%s) returned %s but the weights are valid and not all zero" % (vals, o)))
             elif exp and o != exp:
-                fail = "new(%s) returned %s, documented %s" % (vals, o, exp)
+                fails.append(("float-alias", "new(%s) returned %s, documented %s" % (vals, o, exp)))
         else:
             _, al, od, wts, smp = o.split("|")
             if bad:
-                fail = "new() accepted invalid float weights %s" % vals
+                fails.append(("float-alias", "new() accepted invalid float weights %s" % vals))
             elif sum(vals) == 0:
-                fail = "new() accepted all-zero float weights"
+                fails.append(("float-alias", "new() accepted all-zero float weights"))
             else:
                 if wts != "wpanic":
                     rec = [fval(ty, h) for h in wts[1:-1].split(",")]
                     tol = (1e-5 if ty == "f32" else 1e-13) * max(vals) * n
-                    if any(abs(a - b) > tol for a, b in zip(rec, vals)):
-                        fail = "weights() reconstruction %s deviates from %s by more than rounding" % (rec, vals)
+                    if any(not (abs(a - b) <= tol) for a, b in zip(rec, vals)):
+                        c = "float-alias"
+                        # F17's class: a weight within rounding of MAX/len: the accumulation inside weights() overflows to inf
+                        if max(vals) * n >= fmax * (1 - 2.0 ** -20) and all((a == float("inf") and b * n >= fmax * (1 - 2.0 ** -20)) or abs(a - b) <= tol
+                                                                          for a, b in zip(rec, vals)):
+                            c = "float-alias-weights-overflow"; fover += 1
+                        fails.append((c, "weights() reconstruction %s deviates from %s by more than rounding" % (rec, vals)))
                 else:
-                    fail = "weights() panicked"
+                    fails.append(("float-alias", "weights() panicked"))
+                # the law encoded by the table the crate built (exact rational arithmetic on the printed table): column j keeps itself with
+                # probability min(odds_j/S, 1) and otherwise yields aliases[j]; must equal w_i / sum(w) up to the rounding of the construction
+                try:
+                    alist = [int(v) for v in al[1:-1].split(",")]
+                    olist = [Fraction(fval(ty, h)) if fval(ty, h) != float("inf") else None for h in od[1:-1].split(",")]
+                    tot = sum(Fraction(v) for v in vals)
+                    # the crate's weight_sum is the float sum of the weights; saturated at MAX when the sum overflows (documented clamp)
+                    Sx = min(tot, Fraction(fmax))
+                    mass = [Fraction(0)] * n
+                    okm = True
+                    for j in range(n):
+                        keep = Fraction(1) if olist[j] is None else min(olist[j] / Sx, Fraction(1))
+                        mass[j] += keep / n
+                        if keep < 1:
+                            if alist[j] >= n: okm = None; break       # a sentinel that can be reached: judged by the index-range oracle
+                            mass[alist[j]] += (1 - keep) / n
+                    if okm:
+                        ptol = Fraction(n * 64, 2 ** (24 if ty == "f32" else 53))
+                        if tot <= Fraction(fmax):
+                            dev = max(abs(mass[i] - Fraction(vals[i]) / tot) for i in range(n))
+                            fmass += 1
+                            if dev > ptol:
+                                fails.append(("float-alias", "the alias table built for float weights %s encodes probabilities %s (deviation %.3g from "
+                                              "w_i/sum(w), rounding budget %.3g)" % (vals, [float(m) for m in mass], float(dev), float(ptol))))
+                except (ValueError, ZeroDivisionError):
+                    pass
                 for s in (smp.split(";") if smp else []):
                     if s == "panic":
-                        fail = fail or "sample() panicked"
+                        fails.append(("float-alias", "sample() panicked"))
                     else:
                         i = int(s.split(":")[1])
                         if i >= n:
-                            fail = "sample() returned %d for %d float weights %s" % (i, n, vals)
+                            c = "float-alias"
                             # F8's class: the weight sum is subnormal (Uniform(0,S) can return S itself)
                             tiny = 1.1754943508222875e-38 if ty == "f32" else 2.2250738585072014e-308
                             if i == 4294967295 and sum(vals) < tiny:
-                                cls = "float-alias-sentinel"; fsent += 1
+                                c = "float-alias-sentinel"; fsent += 1
+                            fails.append((c, "sample() returned %d for %d float weights %s" % (i, n, vals)))
                         elif vals[i] == 0:
-                            fail = fail or "sample() returned zero-weight index %d of %s" % (i, vals)
-        if fail:
-            oracle_failures.append({"property": PID, "type": ty, "harness_line": line, "what": fail, "class": cls})
+                            fails.append(("float-alias", "sample() returned zero-weight index %d of %s" % (i, vals)))
+        seen = set()
+        for c, what in fails:
+            if (c, what) in seen: continue
+            seen.add((c, what))
+            oracle_failures.append({"property": PID, "type": ty, "harness_line": line, "what": what, "class": c})
     return {
         "evaluations": len(vecs) + len(flines), "distinct_nontrivial": len(distinct),
         "rule": "weight vectors: exhaustively every vector of length <= %d over {0,1,2,3,MAX/n-1,MAX/n,MAX/n+1,-1} for each of the 11 "
@@ -296,23 +341,25 @@ def correspond(ctx):
         "samples": [lines[5], lines[len(lines) // 2], lines[-1][:300], flines[3]],
         "mismatches": mismatches, "oracle_failures": oracle_failures,
         "extra": {"outcome_distribution": outcome, "enumerated_column_threshold_pairs": enum_pairs,
-                  "float_vectors": len(flines), "float_sentinel_returns": fsent,
+                  "float_vectors": len(flines), "float_sentinel_returns": fsent, "float_weights_overflow": fover, "float_tables_mass_checked": fmass,
                   "kinds": {k: sum(1 for v in vecs if v[2] == k) for k in ("exhaustive", "random")}},
     }
 
 
 def match_known(f, kf):
     for k in kf:
-        if k.get("class") == f.get("class") == "float-alias-sentinel":
+        if k.get("class") == f.get("class") and k.get("class") in ("float-alias-sentinel", "float-alias-weights-overflow"):
             return k
     return None
 
 
 def replay_known(ctx, k):
-    if k.get("class") != "float-alias-sentinel":
+    if k.get("class") not in ("float-alias-sentinel", "float-alias-weights-overflow"):
         return None
     out = run_harness(ctx["binary"], [k["witness"]["harness_line"]])[0]
-    if "idx:4294967295:" in out:
+    if k.get("class") == "float-alias-sentinel" and "idx:4294967295:" in out:
+        return {"what": k["what"]}
+    if k.get("class") == "float-alias-weights-overflow" and out.startswith("ok|") and "x7ff0000000000000" in out.split("|")[3]:
         return {"what": k["what"]}
     return None
 
